@@ -31,6 +31,17 @@ REQUIRED_REACH = ['CellConversion.pot_fill', 'CellConversion.cell_transform',
 _PER = {'quick': 14, 'thorough': 900}
 
 
+def attach_monitors():
+    from .. import monitors
+    monitors.attach_contracts()
+    monitors.attach_cache_events()
+
+
+def monitor_counts():
+    from .. import monitors
+    return dict(monitors.COUNTS)
+
+
 def plan(tier):
     return [(fam, _PER[tier]) for fam in gen_univ.FAMILIES]
 
